@@ -60,6 +60,8 @@ var guardSpecs = []guardSpec{
 	{"callValidateESGuard", "pkg/controller.v1beta1/suggestion/suggestion_controller.go", "ReconcileSuggestion", "r.ValidateEarlyStoppingSettings(", rsAtoms, rsParams},
 	{"markSugRunningGuard", "pkg/controller.v1beta1/suggestion/suggestion_controller.go", "ReconcileSuggestion", "instance.MarkSuggestionStatusRunning(corev1.ConditionTrue", rsAtoms, rsParams},
 	{"callSyncGuard", "pkg/controller.v1beta1/suggestion/suggestion_controller.go", "ReconcileSuggestion", "r.SyncAssignments(", rsAtoms, rsParams},
+	{"markExpFailedBySugGuard", "pkg/controller.v1beta1/experiment/experiment_controller.go", "ReconcileSuggestions", "instance.MarkExperimentStatusFailed(", rsugAtoms, rsugParams},
+	{"callUpdateSuggestionGuard", "pkg/controller.v1beta1/experiment/experiment_controller.go", "ReconcileSuggestions", "r.UpdateSuggestion(suggestion)", rsugAtoms, rsugParams},
 	{"sugRestartGuard", "pkg/controller.v1beta1/experiment/experiment_controller_util.go", "restartSuggestion", "original.DeepCopy()",
 		map[string]string{"err != nil": "getFailed", "errors.IsNotFound(err)": "notFound", "original.IsCompleted()": "sugCompleted", "original.IsRestarting()": "sugRestarting", "original.IsSucceeded()": "sugSucceeded", "instance.IsRestarting()": "expRestarting"},
 		[]string{"getFailed", "notFound", "sugCompleted", "sugRestarting", "sugSucceeded", "expRestarting"}},
@@ -109,6 +111,16 @@ var rsAtoms = map[string]string{
 }
 var rsParams = []string{"fromVolume", "esSet", "generatedAccount", "deployReady", "running",
 	"failed1", "failed2", "failed3", "failed4", "failed5", "failed6", "failed7", "failed8", "failed9", "failed10", "failed11", "failed12", "failed13", "failed14"}
+
+var rsugAtoms = map[string]string{
+	"err != nil": "failed#", "original != nil": "sugPresent", "original.IsFailed()": "sugFailed",
+	"suggestion.Spec.Requests != suggestionRequestsCount":       "requestsDiffer",
+	"len(suggestion.Status.Suggestions) > int(currentCount)":    "moreAssignmentsThanTrials",
+	"!trial.IsObservationAvailable() && trial.IsEarlyStopped()": "incompleteEarlyStopped", "!trialNames[suggestion.Name]": "unassigned",
+	"trial.IsObservationAvailable()": "obsAvailable", "trial.IsEarlyStopped()": "earlyStopped", "trialNames[suggestion.Name]": "assigned",
+	"original.IsRestarting()": "sugRestarting",
+}
+var rsugParams = []string{"failed1", "failed2", "sugPresent", "sugFailed", "requestsDiffer", "moreAssignmentsThanTrials", "sugRestarting"}
 
 var verdictAtoms = map[string]string{
 	"jobStatus.Condition == trialutil.JobSucceeded": "jobSucceeded", "jobStatus.Condition == trialutil.JobFailed": "jobFailed",
